@@ -194,8 +194,10 @@ E("outerjoin_missing", 2, lambda S, **kw: etl.outerjoin(S[0], etl.rename(S[1], _
   "sorted presorted", presort="k")
 E("crossjoin", 2, lambda S: etl.crossjoin(S[0], S[1]), "")
 E("crossjoin_prefix", 2, lambda S: etl.crossjoin(S[0], S[1], prefix=True), "")
-E("unjoin_left", 1, lambda S, **kw: etl.unjoin(S[0], "s", key="k", **kw)[0], "sorted rect")
-E("unjoin_right", 1, lambda S, **kw: etl.unjoin(S[0], "s", key="k", **kw)[1], "sorted rect")
+# (with key= the documented presorted argument has nothing to switch off - both halves are `distinct` of a projection - so
+#  presorted=True on input sorted by the key must simply give the default result)
+E("unjoin_left", 1, lambda S, **kw: etl.unjoin(S[0], "s", key="k", **kw)[0], "sorted presorted rect", presort="k")
+E("unjoin_right", 1, lambda S, **kw: etl.unjoin(S[0], "s", key="k", **kw)[1], "sorted presorted rect", presort="k")
 E("unjoin_nokey_left", 1, lambda S, **kw: etl.unjoin(S[0], "s", **kw)[0], "sorted presorted rect", presort="s")
 E("unjoin_nokey_right", 1, lambda S, **kw: etl.unjoin(S[0], "s", **kw)[1], "sorted presorted rect", presort="s")
 for _nm in ["hashjoin", "hashleftjoin", "hashrightjoin", "hashantijoin", "hashlookupjoin"]:
